@@ -45,7 +45,7 @@ GoKind(k) == CASE k = "Schemas" -> "schemas" [] k = "Parameters" -> "parameters"
                [] k = "RequestBodies" -> "requestBodies" [] k = "Responses" -> "responses" [] k = "SecuritySchemes" -> "securitySchemes"
                [] k = "Examples" -> "examples" [] k = "Links" -> "links" [] k = "Callbacks" -> "callbacks" [] OTHER -> k
 Strip(nm) == nm     \* "[X]" is compared through the table below
-BracketNames == [n \in {"A", "Acc", "B", "C", "L", "Rec", "U", "V", "W", "X", "Y"} |-> "[" \o n \o "]"]
+BracketNames == [n \in {"A", "Acc", "B", "C", "Cat", "Dog", "H", "L", "Pet", "Rec", "U", "V", "W", "X", "Y", "Z", "e", "p", "schema"} |-> "[" \o n \o "]"]
 NameOfBracket(b) == IF \E n \in DOMAIN BracketNames : BracketNames[n] = b
                     THEN CHOOSE n \in DOMAIN BracketNames : BracketNames[n] = b ELSE ""
 KeyOf(u, pos, s) ==
